@@ -71,10 +71,11 @@ PROPS.update({
     "C01": _hybrid("C01", "c01", ["contracts.model_replace"],
                    "the validation points and the failure flow the property names: close() (the only place replace builds a node around new content) returns a node of the same type / attributes / marks exactly when the new child sequence is valid for that type and raises ReplaceError otherwise; "
                    "check_join / joinable raise exactly on incompatible content; replace() raises ReplaceError for an inverted range, content deeper than the insertion position or inconsistent open depths; Node.replace / Node.resolve report out-of-range positions with ValueError and index nothing; "
+                   "insert_into / Slice.insert_at (where a replace-around step drops its gap content) return a fragment exactly when the landing node -- found by descending along the child that holds the offset -- is incomplete (slice top level / open side) or accepts the content there; "
                    "StepResult.from_replace turns every ReplaceError into a failed result (failed xor doc); ReplaceStep.apply / ReplaceAroundStep.apply fail when a structure step would overwrite content and when the gap is not flat; content_between terminates and indexes safely.",
-                   "that the document a step returns is valid at every node (oracle validity) for all eight step kinds, directly and through JSON, with well-formed and malformed (out-of-range, out-of-order) positions, nested / open wrapper slices; replace_outer / replace_two_way / replace_three_way / insert_into recursion is outside the proved set (trusted contracts listed in the evidence).",
-                   assumptions=("A1", "A4", "A5", "A6", "A9", "A10", "Z3", "PYVC"), min_obligations=140, shards={"ReplaceAroundStep.apply": 4},
-                   bounded_only=["validity of every node of the returned document", "replace_outer / replace_two_way / replace_three_way / insert_into / remove_range recursion", "mark / attribute / node-mark step apply bodies", "Step.from_json decoding"]),
+                   "that the document a step returns is valid at every node (oracle validity) for all eight step kinds, directly and through JSON, with well-formed and malformed (out-of-range, out-of-order) positions, nested / open wrapper slices; replace_outer / replace_two_way / replace_three_way recursion is outside the proved set (trusted contracts listed in the evidence).",
+                   assumptions=("A1", "A4", "A5", "A6", "A9", "A10", "Z3", "PYVC"), min_obligations=170, shards={"ReplaceAroundStep.apply": 4, "insert_into": 4},
+                   bounded_only=["validity of every node of the returned document", "replace_outer / replace_two_way / replace_three_way / remove_range recursion", "mark / attribute / node-mark step apply bodies", "Step.from_json decoding"]),
     "C02": _hybrid("C02", "c02", ["contracts.model_core"],
                    "the size / index algebra replace and slice are built from: Fragment.__init__ (size == sum of child sizes, class invariant proved at every construction), find_index (offset == prefix sum, "
                    "position at the boundary or strictly inside the child selected by the rounding side, termination), cut_by_index, replace_child, add_to_start, add_to_end (content and size), child / maybe_child / first_child / last_child, node_size, "
